@@ -12,10 +12,10 @@ git -C /repo worktree add --detach $wt HEAD >/dev/null 2>&1 || exit 2
 export GOFLAGS=-mod=mod GOPROXY=off GOSUMDB=off GOTOOLCHAIN=local
 cp $d/demo_test.go.txt $wt/$pkg/zz_seed_demo_test.go
 cd $wt
-clean=$(go test -mod=mod -vet=off -count=1 -run "^$rx\$" ./$pkg 2>&1 | grep -E "^(ok|FAIL|---)" | head -1)
+clean=$(go test -mod=mod -vet=off -count=1 -run "^$rx" ./$pkg 2>&1 | grep -E "^(ok|FAIL|---)" | head -1)
 if ! git apply $d/patch.diff; then echo "{\"id\":\"$id\",\"error\":\"patch does not apply\"}"; cd /; git -C /repo worktree remove --force $wt; rm -rf /tmp/sc-$$; exit 2; fi
 build=$(go build ./... 2>&1 | tail -1)
-patched=$(go test -mod=mod -vet=off -count=1 -run "^$rx\$" ./$pkg 2>&1 | grep -E "^(ok|FAIL|---)" | head -1)
+patched=$(go test -mod=mod -vet=off -count=1 -run "^$rx" ./$pkg 2>&1 | grep -E "^(ok|FAIL|---)" | head -1)
 rm -f $wt/$pkg/zz_seed_demo_test.go
 go test -mod=mod -json -vet=off -count=1 -timeout 25m ./... > /tmp/sc-$$/suite.json 2>/dev/null
 python3 - "$id" "$clean" "$build" "$patched" /tmp/sc-$$/suite.json <<'PY'
@@ -31,6 +31,21 @@ for line in open(f):
     if e.get('Test') and e.get('Action') in('pass','fail','skip'):
         res[e['Package']+'::'+e['Test']]=e['Action']
 bad=[t for t in stable if res.get(t)!='pass']
-print(json.dumps({"id":id,"demo_clean":clean,"build":build,"demo_patched":patched,"suite_tests_seen":len(res),"stable_pass_now_failing":bad}))
+# a stable-pass test that fails in the full run is re-run alone (p2p tests use fixed ports and start-up timing):
+# it only counts as failing when it fails 3 times out of 3 on the patched tree
+import subprocess,os
+still=[]
+for t in bad:
+    pkg,name=t.split('::')
+    rel='./'+pkg.split('github.com/xuperchain/xupercore/')[1]
+    ok=False
+    for i in range(3):
+        r=subprocess.run(['go','test','-mod=mod','-vet=off','-count=1','-run','^'+name+'$',rel],cwd=os.getcwd(),capture_output=True,text=True)
+        if r.returncode==0:
+            ok=True; break
+    if not ok: still.append(t)
+retried=[t for t in bad if t not in still]
+bad=still
+print(json.dumps({"id":id,"demo_clean":clean,"build":build,"demo_patched":patched,"suite_tests_seen":len(res),"stable_pass_now_failing":bad,"failed_in_full_run_but_pass_alone":retried}))
 PY
 cd /; git -C /repo worktree remove --force $wt; rm -rf /tmp/sc-$$
